@@ -656,6 +656,9 @@ structure GoodAt (st0 : WState) (pre : List WEv) (e : WEv) : Prop where
   ack_of_unsent : ∀ p, e.arrival = some p → e.peerAck ≠ [] → (∀ a, Arrived st0 pre a → a < p) →
     ((∃ r ∈ e.peerAck, ∃ n, r.1 ≤ n ∧ n < r.2 ∧ st0.sentLow ≤ n ∧ ¬ SentBefore st0 pre n) ↔
       e.close = some errProtocolViolation)
+  /-- a packet carrying a PATH_CHALLENGE whose number is above every earlier one is decoded to
+  that number and processed: its challenge is answered (receiver side of C23) -/
+  fresh_answered : ∀ p, e.arrival = some p → e.challenge = true → (∀ a, Arrived st0 pre a → a < p) → p ∈ e.resp
 
 private theorem allIn_iff (lo hi : Int) (p : Int → Bool) :
     allIn lo hi p = true ↔ ∀ n, lo ≤ n → n < hi → p n = true := by
@@ -761,8 +764,15 @@ theorem monitor_sound (st0 : WState) (tr : List WEv) (h : run st0 tr = true) :
   obtain ⟨sa, ss, sp, sl⟩ := after_spec st0 pre
   generalize after st0 pre = st at hc sa ss sp sl
   simp only [check, Bool.and_eq_true] at hc
-  obtain ⟨⟨⟨h1, h2⟩, h3⟩, h4⟩ := hc
-  refine ⟨?_, ⟨?_, (nodupB_iff _).1 h3⟩, ?_⟩
+  obtain ⟨⟨⟨⟨h1, h2⟩, h3⟩, h4⟩, h5⟩ := hc
+  refine ⟨?_, ⟨?_, (nodupB_iff _).1 h3⟩, ?_, ?_⟩
+  rotate_left 3
+  · intro p hp hch hfresh
+    have hf : isFresh st e = true := by
+      simp only [isFresh, hp, List.all_eq_true, decide_eq_true_eq]
+      intro a ha; exact hfresh a ((sa a).1 ha)
+    simp only [hch, hf, Bool.and_self, if_true, hp] at h5
+    simpa using h5
   · intro f hf r hr n hn1 hn2
     have := List.all_eq_true.1 (List.all_eq_true.1 h1 f hf) r hr
     have := (allIn_iff _ _ _).1 this n hn1 hn2
